@@ -302,13 +302,13 @@ Defns ==
        d \in Dialects, lx \in BOOLEAN, rv \in BOOLEAN, S \in {{3}, {1, 3}, {3, 6}, {1, 3, 6}, {4, 5, 6}}}
   (* media types *)
   \cup {Mk(d, S, FALSE, FALSE, m, b, 1, FALSE, FALSE, FALSE, "media") :
-       d \in Dialects, S \in {{1}, {3, 6}}, m \in 1..6, b \in IF Thorough THEN 0..12 ELSE {0, 3}}
+       d \in Dialects, S \in {{1}, {3, 6}}, m \in 1..6, b \in IF Thorough THEN {0, 3, 6, 9, 12} ELSE {0, 3}}
   \cup {Mk(d, S, FALSE, FALSE, m, b, 1, FALSE, FALSE, FALSE, "media") :          \* wildcard ranges, a malformed documented media type
-       d \in Dialects, S \in {{1}, {3, 6}}, m \in 7..10, b \in IF Thorough THEN 0..12 ELSE {0}}
+       d \in Dialects, S \in {{1}, {3, 6}}, m \in 7..10, b \in IF Thorough THEN {0, 3, 6, 9, 12} ELSE {0}}
   (* schema rotation (nullable, writeOnly, nested references) and references *)
   \cup {Mk(d, S, FALSE, FALSE, IF d = "2.0" THEN 2 ELSE 3, b, 1, rr, rs, FALSE, "refs") :
        d \in Dialects3, S \in IF Thorough THEN {{1}, {1, 6}, {3}, {2, 3, 6}} ELSE {{1, 6}, {3}},
-       b \in IF Thorough THEN 0..12 ELSE {0, 2, 4, 6, 8, 10, 12}, rr \in BOOLEAN, rs \in BOOLEAN}
+       b \in IF Thorough THEN {0, 1, 2, 3, 4, 6, 8, 10, 12} ELSE {0, 2, 4, 6, 8, 10, 12}, rr \in BOOLEAN, rs \in BOOLEAN}
   (* headers *)
   \cup {D \in {Mk(d, S, FALSE, FALSE, 2, 0, h, rr, FALSE, rh, "headers") :
                 d \in Dialects, S \in IF Thorough THEN {{1}, {3}, {6}, {1, 3, 6}, {4, 5}} ELSE {{1}, {3}, {1, 3, 6}},
@@ -332,7 +332,8 @@ CtText(defn, o) ==
        [] o = "quoted" -> [present |-> TRUE, txt |-> m1 \o TQuoted]
        [] o = "json" -> [present |-> TRUE, txt |-> MTJson]
        [] o = "upper" -> [present |-> TRUE, txt |-> [i \in DOMAIN m2 |-> Upper(m2[i])] \o TCharset]
-StatusesOf(sl) == IF Thorough \/ sl \in {"keys", "headers"} THEN Statuses ELSE IF sl = "media" THEN {200, 404} ELSE {200, 500}
+StatusesOf(sl) == IF sl \in {"keys", "headers"} \/ (Thorough /\ sl = "media") THEN Statuses
+                  ELSE IF sl = "media" THEN {200, 404} ELSE IF Thorough THEN {200, 404, 500} ELSE {200, 500}
 CtOptionsOf(sl) == IF Thorough \/ sl = "media" THEN CtOptions ELSE {"doc1", "doc2"}
 Resps(d) ==
   IF d.slice = "headers"
